@@ -263,6 +263,8 @@ def base_ocp(draw, methods=("MS", "SS", "DC"), allow_alg=True, quad=False, grid_
         sp["alg"] = [[["-", ["+", z, ["*", E.C(0.25), ["tanh", z]]], h]]]
     sp["method"] = m
     fill_param_values(draw, sp, m["N"])
+    # dynamics declared per state, or once on a concatenation of all states (the builder ignores this with set_der scales)
+    sp["dyn_concat"] = draw(st.integers(0, 3)) == 0
     return sp
 
 
